@@ -49,6 +49,38 @@ type tFmter struct{ s string }
 
 func (t tFmter) Format(f fmt.State, verb rune) { io.WriteString(f, t.s) }
 
+// tPadFmter pads by hand, the way math/big's Format methods do: the blanks, the text (in two pieces) and, under %x,
+// a nested Fprintf all arrive as separate writes on the fmt.State.
+type tPadFmter struct{ s string }
+
+func (t tPadFmter) Format(f fmt.State, verb rune) {
+	text := t.s
+	if verb == 'x' {
+		text = fmt.Sprintf("%x", t.s)
+	}
+	pad := 0
+	if w, ok := f.Width(); ok {
+		pad = w - len([]rune(text))
+		if pad > 300 {
+			pad = 300
+		}
+	}
+	blanks := func() {
+		for i := 0; i < pad; i++ {
+			f.Write([]byte{' '})
+		}
+	}
+	if !f.Flag('-') {
+		blanks()
+	}
+	rs := []rune(text) // (invalid bytes become U+FFFD: the pieces are cut at rune boundaries)
+	f.Write([]byte(string(rs[:len(rs)/2])))
+	io.WriteString(f, string(rs[len(rs)/2:]))
+	if f.Flag('-') {
+		blanks()
+	}
+}
+
 // tErrFmter is an error that is also a Formatter (the Formatter wins).
 type tErrFmter struct{ e, s string }
 
@@ -138,6 +170,9 @@ func (s panicSpec) fire() {
 		panic((*tPStringer)(nil))
 	case 7:
 		panic([]*tPErr{nil})
+	case 8:
+		// an error that is also a Formatter: the payload is printed like any operand (its Format method wins)
+		panic(tErrFmter{"E:" + s.msg, s.msg})
 	default:
 		panic(tBadPayload{msg: s.msg, k: s.k})
 	}
